@@ -138,8 +138,12 @@ def pl_frame_case(v, arrangement, N, opts):
                 return sch.validate(obj, lazy=lz)
         return sch.validate(obj, lazy=lz)
 
+    import tmpl
+
+    fp0, cfg0 = tmpl.fingerprint(schema), tmpl.config_fingerprint()
     o = H.outcome(lambda: run(df))
-    asserts = [("channel", v.holds(channel_ok(o))), ("input_unchanged", pl_equal(v, df, snap))]
+    asserts = [("channel", v.holds(channel_ok(o))), ("input_unchanged", pl_equal(v, df, snap)),
+               ("schema_unchanged", v.holds(tmpl.fingerprint(schema) == fp0)), ("config_unchanged", v.holds(tmpl.config_fingerprint() == cfg0))]
     facts = dict(kind=o["kind"], reason=o.get("reason"), _msg=o.get("msg"), container="LazyFrame" if lazyframe else "DataFrame")
     parsing = bool(coerce or opts.get("default") or opts.get("add_missing") or opts.get("strict") == "filter" or opts.get("drop"))
     if opts.get("oracle") and not parsing and not nan:
@@ -268,14 +272,98 @@ def pl_column_case(v, N, opts):
     lo = v.int("aA")
     col = ppl.Column(float, Check.ge(lo), name="a", nullable=v.bool("nullable"), unique=v.bool("unique_a"), coerce=bool(opts.get("coerce")),
                      default=v.int("dflt") if opts.get("default") else None)
+    import tmpl
+
+    cfg0 = tmpl.config_fingerprint()
     o = H.outcome(lambda: col.validate(df, lazy=bool(opts.get("lazy"))))
-    asserts = [("channel", v.holds(channel_ok(o))), ("input_unchanged", pl_equal(v, df, snap))]
+    asserts = [("channel", v.holds(channel_ok(o))), ("input_unchanged", pl_equal(v, df, snap)), ("config_unchanged", v.holds(tmpl.config_fingerprint() == cfg0))]
     facts = dict(kind=o["kind"], reason=o.get("reason"), _msg=o.get("msg"), container="LazyFrame" if lazyframe else "DataFrame")
     if o["kind"] == "accept":
         out = o["out"]
         facts["out_kind"] = H.pl_kind(out) if H._is_pl(out) else type(out).__name__
         asserts.append(("kind_preserved", v.holds(same_kind(out, df))))
     return dict(obs=o, asserts=asserts, facts=facts)
+
+
+# ------------------------------------------------------------------ fault schedules over user callbacks on polars (C06 b)
+def pl_fault_case(v, shape, lazy, N, max_faults):
+    """user check functions (column-level expression check, element-wise check, dataframe-level check) consult one symbolic
+    flag per invocation; whichever call fails, the outcome stays in the documented channel and the schema, the configuration and
+    the caller's frame are as before"""
+    import tmpl
+
+    calls, flags = [], []
+
+    def maybe_fail(tag):
+        j = len(calls)
+        calls.append(tag)
+        f = v.bool(f"fail{j}")
+        flags.append(f)
+        if v.sym and max_faults is not None:
+            from symx import eng
+
+            eng().assume(z3.AtMost(*[z3.Bool(f"fail{k}") for k in range(12)], max_faults))
+        if f:
+            raise tmpl.Injected(f"injected@{j}:{tag}")
+
+    def colcheck(tag):
+        def fn(data):
+            maybe_fail(tag)
+            from sympl import PROXY as pl  # the namespace pandera's own polars code sees (shim or real polars)
+
+            return data.lazyframe.select(pl.col(data.key).ge(0))
+        return fn
+
+    def elem(tag):
+        def fn(x):
+            maybe_fail(tag)
+            return x >= 0
+        return fn
+
+    def dfc(tag):
+        def fn(data):
+            maybe_fail(tag)
+            from sympl import PROXY as pl
+
+            return data.lazyframe.select(pl.col("b").ge(0))
+        return fn
+
+    lazyframe = shape.endswith("_lf")
+    df = v.plframe([("a", "float"), ("b", "int", False)], N, lazy=lazyframe)
+    snap = pl_snapshot(df)
+    if shape.startswith("frame"):
+        schema = ppl.DataFrameSchema({"a": ppl.Column(float, [Check(colcheck("c1")), Check(elem("el"), element_wise=True)], nullable=True),
+                                      "b": ppl.Column(int, Check(colcheck("c2")))}, checks=Check(dfc("df")))
+    else:
+        schema = ppl.Column(float, [Check(colcheck("c1")), Check(elem("el"), element_wise=True)], nullable=True, name="a")
+    fp0, cfg0 = tmpl.fingerprint(schema) if shape.startswith("frame") else None, tmpl.config_fingerprint()
+
+    def run():
+        with config_context(validation_depth=ValidationDepth.SCHEMA_AND_DATA):
+            return schema.validate(df, lazy=lazy)
+
+    o = H.outcome(run)
+    n_injected = sum(1 for k in range(len(flags)) if tmpl._flag_true(v, flags[k]))
+    asserts = [("fault/channel", v.holds(channel_ok(o))), ("fault/input_unchanged", pl_equal(v, df, snap)),
+               ("fault/config_unchanged", v.holds(tmpl.config_fingerprint() == cfg0))]
+    if fp0 is not None:
+        asserts.append(("fault/schema_unchanged", v.holds(tmpl.fingerprint(schema) == fp0)))
+    if n_injected:
+        asserts.append(("fault/reported_as_failed_check", v.holds(o["kind"] in ("SchemaError", "SchemaErrors"))))
+        if o["kind"] == "SchemaErrors":
+            asserts.append(("fault/reason_check_error", v.holds("CHECK_ERROR" in o["reasons"])))
+    return dict(obs=o, asserts=asserts, facts=dict(kind=o["kind"], reason=o.get("reason"), reasons=o.get("reasons"), calls=list(calls), injected=n_injected,
+                                                   _msg=o.get("msg")))
+
+
+def fault_cases(tier):
+    out = []
+    N = 2
+    for shape in ("frame", "frame_lf", "column"):
+        for lazy in (False, True):
+            mf = 1 if tier == "quick" else None
+            out.append((f"PL/X/{shape}/lazy={int(lazy)}/N={N}/faults<={mf}", pl_fault_case, (shape, lazy, N, mf)))
+    return out
 
 
 # ------------------------------------------------------------------ head / tail on polars (C20)
